@@ -606,6 +606,13 @@ type liveNode struct {
 var linearOps = map[string]bool{"Neg": true, "Add": true, "Sub": true, "Min": true, "Max": true, "Vmean": true, "Mtrace": true}
 
 func drawInput(r *prng.Rand) float64 {
+	// exact zeros (and -0): where a shortcut "x == 0 contributes nothing" would lose a derivative
+	if r.Chance(0.1) {
+		if r.Chance(0.25) {
+			return math.Copysign(0, -1)
+		}
+		return 0
+	}
 	switch r.Intn(4) {
 	case 0:
 		return r.Norm() * 1.5
@@ -629,6 +636,100 @@ func drawConst(r *prng.Rand) float64 {
 		return r.Norm() * 2
 	}
 	return r.Uniform(-3, 3)
+}
+
+/* directed reductions: vectors / matrices with coordinates exactly at 0 and +-0
+ * -------------------------------------------------------------------------- */
+
+type dred struct {
+	op      string
+	x, y    []float64
+	rows    int
+	cols    int
+	alpha   float64
+	storage string
+	T       string
+	order   int
+	jets    bool // elements are explicit jets (Direct) instead of activated variables
+	addC    bool // append a constant element
+}
+
+func directedReductions() []dred {
+	nz := math.Copysign(0, -1)
+	vec := [][]float64{{0, 3}, {3, 0, -4}, {0, 0, 2}, {nz, 1.5}, {2, -1, 0.5}, {0}, {-2.5}}
+	pos := [][]float64{{1, 2.5}, {0.5, 0.5, 3}, {4}}
+	mats := [][]float64{{0, 3, -4, 0}, {1, 0, 0, 2}, {nz, 0, 0, 1.5}, {2}, {0}}
+	var l []dred
+	for _, T := range []string{"Real64", "Real32"} {
+		for order := 1; order <= 2; order++ {
+			for _, st := range []string{"dense", "sparse"} {
+				for _, jets := range []bool{false, true} {
+					add := func(d dred) {
+						d.T, d.order, d.storage, d.jets = T, order, st, jets
+						l = append(l, d)
+					}
+					for i, x := range vec {
+						add(dred{op: "Vnorm", x: x, addC: i%2 == 1})
+						add(dred{op: "Vmean", x: x, addC: i%2 == 0})
+						add(dred{op: "SmoothMax", x: x, alpha: []float64{1, -2, 0.5}[i%3]})
+						y := make([]float64, len(x))
+						for k := range y {
+							y[k] = []float64{2, 0, -1.5}[(k+i)%3]
+						}
+						add(dred{op: "VdotV", x: x, y: y})
+					}
+					for i, x := range pos {
+						add(dred{op: "LogSmoothMax", x: x, alpha: []float64{1, -1, 2}[i%3]})
+					}
+					for _, x := range mats {
+						n := 1
+						if len(x) == 4 {
+							n = 2
+						}
+						add(dred{op: "Mnorm", x: x, rows: n, cols: n})
+						add(dred{op: "Mtrace", x: x, rows: n, cols: n})
+					}
+				}
+			}
+		}
+	}
+	return l
+}
+
+func reductionProgram(r *prng.Rand, d dred) *program {
+	op := c02.OpByName(d.op)
+	n := len(d.x) + len(d.y)
+	p := &program{T: d.T, Order: d.order, Direct: d.jets, Seed: r.Intn(2)}
+	p.NVar = n
+	if d.jets {
+		p.NVar = r.Range(1, 3)
+	}
+	p.Pool = []dirty{{Fill: 2.5}, {N: p.NVar, Order: d.order, Fill: -1.5}, {Fill: 0.5}, {N: p.NVar, Order: d.order, Fill: 1.5}, {Fill: -0.5}}
+	s := stmt{Op: d.op, Kind: op.Kind, Par: d.alpha, Rows: d.rows, Cols: d.cols, Storage: d.storage, Recv: r.Intn(2)}
+	for i, v := range append(append([]float64{}, d.x...), d.y...) {
+		if d.jets {
+			p.Inputs = append(p.Inputs, randJet(r, p.hold(v), p.NVar, d.order))
+		} else {
+			p.Inputs = append(p.Inputs, Jet{V: p.hold(v)})
+		}
+		rf := ref{Kind: "v", Idx: i}
+		if i < len(d.x) {
+			s.Args = append(s.Args, rf)
+		} else {
+			s.Args2 = append(s.Args2, rf)
+		}
+	}
+	if d.addC && op.Kind != c02.RedM && op.Kind != c02.RedVV {
+		s.Args = append(s.Args, ref{Kind: "c", Val: p.hold(1.25)})
+	}
+	switch d.op {
+	case "SmoothMax":
+		s.Tmps = []int{2, 3}
+	case "LogSmoothMax":
+		s.Tmps = []int{2, 3, 4}
+	}
+	p.Stmts = []stmt{s}
+	return p
 }
 
 func genProgram(r *prng.Rand) (*program, bool) {
@@ -1064,6 +1165,11 @@ func Run(c *fw.Ctx) {
 		e := dl[cs.Index%len(dl)]
 		p := directedProgram(cs.R, e.d, e.T, e.order, e.variant)
 		runProgram(cs, p, true)
+	})
+	// (1b) directed reductions with coordinates exactly at 0 / -0, as activated variables and as explicit jets
+	dr := directedReductions()
+	c.Cases("directed-reductions", len(dr), func(cs *fw.Case) {
+		runProgram(cs, reductionProgram(cs.R, dr[cs.Index]), true)
 	})
 	// (2) random programs
 	c.Cases("programs", c.N(3000, 60000), func(cs *fw.Case) {
